@@ -27,6 +27,7 @@ char gh_d;        /* original character at the mirror position (qstrrev) */
 size_t gh_a, gh_b, gh_end;  /* recorded by woven ghost statements: first kept, one past last kept, terminator found */
 char gh_ca, gh_cb;          /* characters at gh_a and gh_b-1 when recorded */
 char *gh_str;     /* the string under test */
+size_t gh_j;      /* ghost OUTPUT position (qstrgets) */
 char gh_guard;    /* the byte in front of it */
 #define REL(p) ((long)__CPROVER_POINTER_OFFSET(p) - (long)__CPROVER_POINTER_OFFSET(gh_str))
 #define BLANK(c) ((c) == ' ' || (c) == '\t' || (c) == '\r' || (c) == '\n')
@@ -198,6 +199,42 @@ void h_copy(void) {
     QV_ASSERT(s[k] == gh_c, "C19: copy leaves the source untouched");
     QV_ASSERT(qstrcpy(NULL, 4, s) == NULL && qstrncpy(NULL, 4, s, 1) == NULL, "C19: NULL destination is passed through");
     if (dst) free(dst);
+    RELEASE();
+    QV_END();
+}
+
+/* qstrgets: reads one line from *offset into buf (an object of EXACTLY size bytes): never writes at or beyond size, always
+ * terminates the output, consumes at most size-1 input characters and stops after the first LF or at the terminator; every
+ * consumed character before the stop is neither LF nor NUL; the output never contains CR, LF or an inner NUL; the cursor
+ * only moves forward inside the string. */
+void h_gets(void) {
+    MK_STR(len);
+    QV_IN(size_t, size);
+    QV_ASSUME(size >= 1 && size <= QV_CAP(1000000));
+    char *buf = malloc(size);
+    QV_ASSUME(buf != NULL);
+    QV_IN(size_t, start);
+    QV_ASSUME(start <= len);
+    gh_a = start;
+    QV_IN(size_t, j);
+    gh_j = j;
+    char *off = s + start;
+    char first = *off;
+    char *r = qstrgets(buf, size, &off);
+    if (first == '\0') {
+        QV_ASSERT(r == NULL && off == s + start, "C19: qstrgets at the end of the text returns NULL and leaves the cursor");
+    } else {
+        QV_ASSERT(r == buf, "C19: qstrgets returns the line buffer");
+        QV_ASSERT(QV_SAME_OBJECT(off, s) && off >= s + start && (size == 1 || off > s + start) && off <= s + len, "C19: the cursor moves forward (unless the buffer holds only the terminator) and stays inside the text");
+        size_t used = (size_t)(off - (s + start));
+        QV_ASSERT(used <= size, "C19: at most size-1 characters plus the line feed are consumed");
+        QV_ASSERT(gh_end < size && gh_end <= used && buf[gh_end] == '\0', "C19: the line is terminated inside the buffer and is not longer than the consumed text");
+        if (j < gh_end) QV_ASSERT(buf[j] != '\r' && buf[j] != '\n' && buf[j] != '\0', "C19: the line contains no CR, LF or inner NUL");
+        if (k >= start && k + 1 < start + used) QV_ASSERT(gh_c != '\n' && gh_c != '\0', "C19: the line ends at the FIRST line feed or terminator");
+        QV_REACH("gets line");
+    }
+    QV_ASSERT(s[k] == gh_c, "C19: qstrgets leaves the text untouched");
+    free(buf);
     RELEASE();
     QV_END();
 }
